@@ -5,6 +5,8 @@ Case kinds (first token of the protocol line; see hooks/banyand/internal/verifdr
   smerge   stream.MergeGroupElements (cross-group merge by timestamp)
   mmerge   measure.MergeGroupMIterators (k-way merge + (sid,ts)-by-version de-dup) + row-path limitIterator
   topq     measure.TopQueue
+  tsidx    banyand/trace streamSIDXTraceBatches: k-way merge of the ordered streams of 1-4 real sidx instances (+ trace-id de-dup)
+  slimit   stream row-path plan limit -> localIndexScan over a paged storage result (offset/limit across pulls)
   mqr      banyand/measure queryResult (heap of block cursors over real mem parts; order by time asc/desc or by series)
   sidx     real sidx (write/flush/merge history, StreamingQuery + QuerySync), queries OUTSIDE the F11 class
   sidxdup  same with duplicate data payloads (exercises the data-level de-duplication)
@@ -272,6 +274,102 @@ def mqr_oracle(line, g):
     return None
 
 
+def gen_tsidx(rng):
+    ninst = rng.choice([1, 2, 2, 3, 3, 4])
+    style = rng.choice(["interleave", "dense", "wide"])
+    ctr = 0
+    pool_ids = []
+    insts, two_parts = [], False
+    for i in range(ninst):
+        n = rng.choice([0, 1, 2, 3, 4, 6])
+        ids, entries = set(), []
+        for j in range(n):
+            if style == "interleave":
+                key = 10 * (j * ninst + i + 1) + (0 if rng.random() < 0.8 else rng.randint(-15, 15))
+            elif style == "dense":
+                key = rng.randint(0, 6)
+            else:
+                key = rng.choice([-2**63, -7, 0, 5, 2**63 - 1, rng.randint(-10**9, 10**9)])
+            if pool_ids and rng.random() < 0.2:
+                tid = rng.choice(pool_ids)          # the same trace indexed by another instance (segment/shard)
+            else:
+                ctr += 1
+                tid = "t%d" % ctr
+            if tid in ids:
+                continue
+            ids.add(tid)
+            entries.append((key, tid))
+        pool_ids.extend(ids)
+        if not entries:
+            insts.append("-")
+            continue
+        rng.shuffle(entries)
+        if len(entries) >= 2 and rng.random() < 0.3:
+            two_parts = True
+            cut = rng.randint(1, len(entries) - 1)
+            insts.append(";".join(",".join("%d:%s" % e for e in part) for part in (entries[:cut], entries[cut:])))
+        else:
+            insts.append(",".join("%d:%s" % e for e in entries))
+    mbs = rng.choice([0, 2, 3, 7]) if two_parts else rng.choice([0, 1, 2, 3, 7])   # stay outside the F11 class per instance
+    return "tsidx %s %d %d %s" % (rng.choice(["asc", "desc", "unspec", "unspec", "nil"]), mbs, rng.choice([0, 0, 1, 2, 5]), "|".join(insts))
+
+
+def gen_slimit(rng):
+    desc = rng.random() < 0.5
+    n = rng.choice([0, 1, 3, 6, 9, 14])
+    hi = rng.choice([3, 20, 10**12])
+    seq = sorted((rng.randint(1, hi) for _ in range(n)), reverse=desc)
+    k = rng.choice([1, 2, 2, 3, 5])
+    cuts = sorted(rng.randint(0, n) for _ in range(k - 1))
+    pages, prev = [], 0
+    for c in cuts + [n]:
+        pages.append(seq[prev:c])
+        prev = c
+    off = rng.choice([0, 0, 1, 2, 3, n, n + 2, rng.randint(0, n + 1)])
+    lim = rng.choice([0, 1, 2, 3, 5, n, n + 3, rng.randint(0, n + 1)])
+    return "slimit %s %d %d %s" % ("desc" if desc else "asc", off, lim, "|".join(",".join(map(str, pg)) or "-" for pg in pages))
+
+
+def tsidx_oracle(line, g):
+    f = line.split()
+    desc = f[1] == "desc"
+    mbs, mt = int(f[2]), int(f[3])
+    bs = mbs if mbs > 0 else (mt if mt > 0 else 64)
+    best = {}
+    for inst in f[4].split("|"):
+        if inst == "-":
+            continue
+        for part in inst.split(";"):
+            for e in part.split(","):
+                k, tid = e.split(":")
+                k = int(k)
+                best[tid] = k if tid not in best else (max(best[tid], k) if desc else min(best[tid], k))
+    batches = [] if g == "-" else [[(int(x.split(":")[0]), x.split(":")[1]) for x in b.split(",")] if b != "_" else [] for b in g.split("/")]
+    if any(len(b) == 0 or len(b) > bs for b in batches) or any(len(b) != bs for b in batches[:-1]):
+        return ("violation", "tsidx: batch sizes %s with batch size %d" % ([len(b) for b in batches], bs))
+    flat = [e for b in batches for e in b]
+    ids = [t for _, t in flat]
+    if len(set(ids)) != len(ids) or set(ids) != set(best):
+        return ("violation", "tsidx: %d trace ids returned (%d distinct), %d indexed" % (len(ids), len(set(ids)), len(best)))
+    if any(best[t] != k for k, t in flat):
+        return ("violation", "tsidx: a trace id is reported with a key that is not its first in the requested order")
+    keys = [k for k, _ in flat]
+    want = sorted(best.values(), reverse=desc)
+    if keys != want:
+        return ("violation", "tsidx: merged keys %s are not the globally sorted sequence %s (so no offset/limit window of it is right)" % (keys[:16], want[:16]))
+    return None
+
+
+def slimit_oracle(line, g):
+    f = line.split()
+    off, lim = int(f[2]), int(f[3])
+    seq = [int(x) for pg in f[4].split("|") if pg != "-" for x in pg.split(",")]
+    got = [] if g == "-" else [int(x) for x in g.split(",")]
+    if got != seq[off:off + lim]:
+        return ("violation", "slimit: offset=%d limit=%d returned %s, the window of the ordered rows is %s" % (off, lim, got[:12], seq[off:off + lim][:12]))
+    return None
+
+
 def sim_blocks(parts):
     """generator-side layout: one block per (part, series)"""
     out = []
@@ -417,19 +515,24 @@ class C09(vlib.Spec):
         "measure queryResult: series ids and timestamps >= 1 (0 is a sentinel in part.go/query.go, see C02/C03), no tag/field "
         "projection beyond one int field, no TopN options, <= 8192 rows per (part, series)",
         "limitIterator: uint32 index does not overflow",
+        "tsidx: trace ids are unique inside one sidx instance; every instance stays outside the F11 class; no errors/cancellation",
+        "slimit: the storage result is a fake paged source (one page per Pull, capped at MaxElementSize) behind the real "
+        "limit -> localIndexScan -> BuildElementsFromStreamResult path; element ids unique",
     ]
     rule = ("sort/smerge: 1-6 sorted iterators over a duplicate-rich key pool incl. empty iterators and empty keys; "
             "sidx*: 1-6 parts x 1-6 series written as mem parts (dense duplicate-heavy, interleaved, disjoint bands, "
             "int64 extremes), random flush/merge history, 2-6 queries each with MaxBatchSize in {0,1,2,3,7,64}, "
             "key ranges (open, inner, outside, single key), series subsets, asc/desc, through StreamingQuery and "
             "QuerySync; mmerge: 1-4 nodes with (sid,ts) duplicates of differing versions, offset/limit at 0/end/beyond; "
-            "topq: n in 1..10 over up to 30 values; mqr: 1-4 mem parts x 1-4 series with (series, timestamp) "
+            "topq: n in 1..10 over up to 30 values; tsidx: 1-4 real sidx instances (interleaving / dense duplicate / int64 extreme "
+            "keys, trace ids shared between instances, 1-2 parts each), order asc/desc/UNSPECIFIED/nil, batch sizes; slimit: an "
+            "ordered sequence cut into 1-5 storage pages incl. empty ones, offset/limit at 0/end/beyond; mqr: 1-4 mem parts x 1-4 series with (series, timestamp) "
             "duplicates of versions 1-3 inside and across parts, time ranges, order by time asc/desc or by series. non-trivial = distinct case with at least two input elements")
 
     def cases(self, rng, n):
         out = []
-        mix = [("sort", 0.17), ("smerge", 0.05), ("mmerge", 0.13), ("topq", 0.07), ("mqr", 0.13),
-               ("sidx", 0.22), ("sidxdup", 0.09), ("sidxf11", 0.14)]
+        mix = [("sort", 0.14), ("smerge", 0.04), ("mmerge", 0.11), ("topq", 0.06), ("mqr", 0.11), ("tsidx", 0.09),
+               ("slimit", 0.1), ("sidx", 0.18), ("sidxdup", 0.07), ("sidxf11", 0.10)]
         for _ in range(n):
             r, acc = rng.random(), 0.0
             kind = "sidx"
@@ -448,6 +551,10 @@ class C09(vlib.Spec):
                 out.append(gen_topq(rng))
             elif kind == "mqr":
                 out.append(gen_mqr(rng))
+            elif kind == "tsidx":
+                out.append(gen_tsidx(rng))
+            elif kind == "slimit":
+                out.append(gen_slimit(rng))
             else:
                 out.append(gen_sidx(rng, kind))
         return out
@@ -502,6 +609,10 @@ class C09(vlib.Spec):
             return None
         if kind == "mqr":
             return mqr_oracle(line, g)
+        if kind == "tsidx":
+            return tsidx_oracle(line, g)
+        if kind == "slimit":
+            return slimit_oracle(line, g)
         if kind.startswith("sidx"):
             return self.sidx_oracle(line, g)
         return ("violation", "unknown case kind")
@@ -604,6 +715,13 @@ class C09(vlib.Spec):
             return True
         if kind == "topq":
             return g.startswith("PANIC") and l.startswith("PANIC")
+        if kind == "tsidx":
+            ga, la = g.split("/"), l.split("/")
+            if [b.count(",") for b in ga] != [b.count(",") for b in la]:
+                return False
+            fa = [] if g == "-" else [tuple(x.split(":")) for b in ga for x in b.split(",")]
+            fb = [] if l == "-" else [tuple(x.split(":")) for b in la for x in b.split(",")]
+            return runs_canon(fa, lambda x: int(x[0]), lambda x: x[1]) == runs_canon(fb, lambda x: int(x[0]), lambda x: x[1])
         if kind.startswith("sidx"):
             sg, slm = split_sidx_out(g), split_sidx_out(l)
             if sg is None or slm is None or sg[0] != slm[0] or len(sg[1]) != len(slm[1]):
@@ -633,6 +751,10 @@ class C09(vlib.Spec):
             return line if f[3].count(",") >= 1 else None
         if f[0] == "mqr":
             return line if f[6].count(":") >= 6 else None
+        if f[0] == "tsidx":
+            return line if f[4].count(":") >= 2 else None
+        if f[0] == "slimit":
+            return line if f[4].count(",") >= 1 else None
         return line if line.count(":") >= 4 else None
 
     def kind(self, line):
@@ -711,8 +833,11 @@ PROPS = [
     "topn_heap_spec", "topInsert_no_panic", "distributed_merge_spec", "distributed_eq_single_node", "mmerge_eq",
     # measure queryResult
     "strictWeak_qrLt_ts", "qrMerge_spec", "measure_pull_sorted", "measure_query_sorted",
+    # stream row-path limit over pages, trace multi-instance merge
+    "limitLoop_eq", "stream_limit_window", "trace_stream_merge_sorted", "traceMergeStreams_flatten",
 ]
-TIES = ["scanner_batch_tie", "max_block_length_tie", "less_by_key_tie", "threshold_shape_tie", "drain_shape_tie"]
+TIES = ["scanner_batch_tie", "max_block_length_tie", "less_by_key_tie", "threshold_shape_tie", "drain_shape_tie",
+        "trace_batch_tie", "trace_direction_shape_tie", "stream_limit_shape_tie"]
 SPEC = C09()
 SPEC.theorems = ["Banyan.C09." + t for t in PROPS] + ["Banyan.Tie.C09." + t for t in TIES]
 
